@@ -92,6 +92,20 @@ def check_stored_is_instance_output(ctx, conf) -> None:
     ctx.require(bool(dumps), "anchor missing: yaml dump call in store_unreplicated_flowir_to_disk")
     from vlib import flow
     cfg = CFG(fn)
+    # every normal return of the store has written (dump) and published (rename/replace) the description: the only way a new
+    # loop iteration or a patched variable reaches the instance directory is this function
+    dump_nodes = [n for n in cfg.nodes if n.ast is not None and n.kind in ("stmt", "with") and any(c is d for d in dumps for c in own_calls(n.ast))]
+    pub_nodes = [n for n in cfg.nodes if n.ast is not None and n.kind == "stmt" and any(
+        (call_name(c) or "") in ("os.rename", "os.replace", "shutil.move") for c in own_calls(n.ast))]
+    for what, gates in (("serialised (yaml dump)", dump_nodes), ("published (rename of the temporary file)", pub_nodes)):
+        reach_without = cfg.reach([cfg.entry], blocked=gates, ignore_labels=("exc", "raise"))
+        ok = bool(gates) and cfg.exit.id not in reach_without
+        ctx.ob("C07.R9-store-always-writes", fn, ok,
+               "every normal return of store_unreplicated_flowir_to_disk has %s the description" % what if ok else
+               "store_unreplicated_flowir_to_disk can return normally without having %s the description: whatever was added "
+               "since the last store (a DoWhile iteration instantiated after a restart with updateInstanceFiles=False, patched "
+               "variables) never reaches flowir_instance.yaml, and the next reload lacks those components without any error" % what,
+               construct="all normal exits of store_unreplicated_flowir_to_disk pass: %s" % what)
     for d in dumps:
         obj = d.args[0] if d.args else None
         chain = []
@@ -213,6 +227,8 @@ def run(ctx) -> None:
     ctx.rule("C07.R4-iterations-persisted", "the controller instantiates the next iteration with store_flowir_to_disk=True and the graph stores after adding the components")
     ctx.rule("C07.R5-same-file-names", "store, generate and load use the same instance/manifest file names")
     ctx.rule("C07.R6-patch-before-store", "user variables are patched in before the unreplicated copy is taken and stored")
+    ctx.rule("C07.R9-store-always-writes", "store_unreplicated_flowir_to_disk writes and publishes the description on every path that returns "
+             "normally (no silent early return)")
     ctx.rule("C07.R8-stored-is-instance-output", "what is dumped to flowir_instance.yaml is the dictionary returned by instance(), passed "
              "only through key-preserving functions (pretty_flowir_sort, copies): no lossy transformation (e.g. dropping "
              "empty lists, which are real values that shadow an inherited list) between the two")
